@@ -5,7 +5,7 @@
    Ingredients: Tree/LoadRefineIndex.heap_union_buffers_total (C09_merge_union_total: every load returns OK, given that
    the parser state records exactly the named elements and references of the parsed tree — StOf);
    Xml/LoadRecordsTree.load_StOf_all (C04_C05_load_StOf_all, agent-xmlproofs: StOf holds for every tree Parser.load
-   returns, both modes, after the fix 44e5d22 of the late SHORT-NAME defect; table hypotheses tables_ok, sn_charsb,
+   returns, both modes, after the fix f86b268 of the late SHORT-NAME defect; table hypotheses tables_ok, sn_charsb,
    ref_charsb, true on the regenerated tables: C04_real_record_tables); Xml/RoundTripFile.file_roundtrip (C01_file_roundtrip:
    the serialization of a canonical tree parses to that tree, with the file version). *)
 From AV Require Import Base.Bytes Base.Outcome Hash.HashModel Spec.SpecOps Spec.SpecReal Hash.HashRealElement Hash.HashRealAttr
